@@ -113,6 +113,12 @@ fn clone_everywhere(rep: &mut Report, p: &Params, bars: bool, seed: u64) {
             }
         };
         let mut c = a.try_clone().ok();
+        // a used instance overwritten through Clone::clone_from must continue like a clone, too
+        let mut e = Inst::new(p);
+        for op in &d[..(cut % 7 + 1).min(len)] {
+            e.apply(op);
+        }
+        let e_ok = e.assign_from(&a).is_ok();
         let mut u = Inst::new(p); // unrelated live instance with the same parameters
         for (i, op) in s[cut..].iter().enumerate() {
             let k = cut + i;
@@ -126,6 +132,14 @@ fn clone_everywhere(rep: &mut Report, p: &Params, bars: bool, seed: u64) {
                 c = None; // drop a clone mid-way (a shallow clone would free shared storage here)
             }
             let rb = b.apply(op);
+            if e_ok {
+                let re = e.apply(op);
+                rep.evaluations += 1;
+                if !res_bits_eq(&re, &or[k]) {
+                    fail(rep, p, "clone_from_differs", "clone", format!("{}: a used instance assigned with clone_from at {} returns {:?} at step {}, replay {:?}", p.label(), cut, re, k + 1, or[k]), &s[..=k], &s[..=k]);
+                    return;
+                }
+            }
             rep.evaluations += 2;
             if !res_bits_eq(&ra, &or[k]) {
                 fail(rep, p, "original_disturbed", "clone", format!("{}: original's output at step {} changed ({:?} vs replay {:?}) after a clone taken at {} was fed other data", p.label(), k + 1, ra, or[k], cut), &s[..=k], &s[..=k]);
